@@ -86,6 +86,9 @@ type LoopCase struct {
 	// Peer snapshots are only delivered once that phase is over.
 	OwnAtStart    bool `json:"own_at_start,omitempty"`
 	ExcludedEmpty int  `json:"excluded_empty,omitempty"`
+	// OnlyTxnIDs (C14's use of this harness): only the header-transaction-id oracle decides; what the
+	// content oracles (C03/C09) would report is left to the checks of those properties
+	OnlyTxnIDs bool `json:"only_txn_ids,omitempty"`
 }
 
 // The first nMainPoints are points of the main loop; "send.in-read-txn" is not a named yield point of the
@@ -99,16 +102,16 @@ var loopYieldPoints = []string{"sync.iter", "sync.before-next", "sync.before-loa
 const nMainPoints = 13
 
 type loopStats struct {
-	appAt       map[string]int
-	appBetween  bool // an application commit fell between two LS transactions (not at sync.iter / before-sleep)
-	mergeAfter  bool // a merge followed such a commit
-	excludedF9  int
+	appAt        map[string]int
+	appBetween   bool // an application commit fell between two LS transactions (not at sync.iter / before-sleep)
+	mergeAfter   bool // a merge followed such a commit
+	excludedF9   int
 	held         int // application transactions that held the write lock while the loop ran on
 	txnIDChecked int // entries whose header transaction id was checked after Lightning Stream (re)wrote them
-	lsEmptyApp  int
-	idleReached bool
-	stores      int
-	fallbacks   int
+	lsEmptyApp   int
+	idleReached  bool
+	stores       int
+	fallbacks    int
 }
 
 type peerSnap struct {
@@ -458,7 +461,7 @@ func runLoopCase(c LoopCase, o *vcore.Obs) (*loopStats, error) {
 				}
 				st.txnIDChecked++
 				if hh.TxnID <= lo || hh.TxnID > uint64(dump.LastTxnID) {
-					return fmt.Errorf("%s: entry %x was (re)written by Lightning Stream since the previous yield and its header carries transaction id %d, but the transaction that wrote it has an id in (%d, %d] (last recorded id at the previous yield %d, application's last transaction %d)",
+					return fmt.Errorf("%s: C14: entry %x was (re)written by Lightning Stream since the previous yield and its header carries transaction id %d, but the transaction that wrote it has an id in (%d, %d] (last recorded id at the previous yield %d, application's last transaction %d)",
 						where, id, hh.TxnID, lo, dump.LastTxnID, prevLast, appFloor)
 				}
 			}
@@ -607,7 +610,10 @@ func runLoopCase(c LoopCase, o *vcore.Obs) (*loopStats, error) {
 		}
 		// C03: the application-visible content is what last-writer-wins prescribes
 		if err := checkVisible(where); err != nil {
-			return st, err
+			if !c.OnlyTxnIDs {
+				return st, err
+			}
+			// (a C03 matter; the transaction-id oracle does not depend on the content model)
 		}
 		if err := checkTxnIDs(where); err != nil {
 			return st, err
@@ -746,6 +752,9 @@ func runLoopCase(c LoopCase, o *vcore.Obs) (*loopStats, error) {
 	}
 	st.stores = countStores()
 	st.fallbacks = fallbacks
+	if c.OnlyTxnIDs {
+		return st, nil
+	}
 	if c.ReceiveOnly {
 		if st.stores != 0 {
 			return st, fmt.Errorf("receive-only instance stored %d snapshots", st.stores)
@@ -1170,4 +1179,46 @@ func mergeIntoMirror(mir *model.Mirror, ents []SPeer, sweeper bool) {
 		}
 		mir.MergeRemote(dbi, "plain", k, model.SVer{TS: e.TS, Del: e.Del, Val: e.Val}, 0)
 	}
+}
+
+// ---- C14 inside the real loop: the header transaction id of everything Lightning Stream writes ----
+
+func checkC14Loop(c LoopCase, o *vcore.Obs) error {
+	c.OnlyTxnIDs = true
+	st, err := runLoopCase(c, o)
+	classifyLoop(c, st, o)
+	o.NonTrivial(st.txnIDChecked > 0 && st.held > 0)
+	if err != nil && !strings.Contains(err.Error(), ": C14: ") {
+		o.Class("other-oracle-or-harness-stopped-the-case")
+		return nil // not this property's business (C03/C09/C10 run the same cases with their oracles)
+	}
+	return err
+}
+
+func TestC14Loop(t *testing.T) {
+	vcore.Run(t, vcore.Config{Property: "C14", Inflight: true,
+		Rule: "the cases of TestC03Loop (real sync loop under the yield-point scheduler, peer snapshots, application commits at named yield points, a third of them with the write transaction still open when the loop is released) with ONLY the header oracle: after every yield, each entry Lightning Stream wrote or rewrote since the previous yield (native: application DBIs; shadow mode: shadow DBIs) carries a transaction id above the last id recorded at the previous yield, above the id of an application transaction that committed in between, and not above the last recorded id now - i.e. the id of the transaction that wrote it, also when that transaction had to wait for the write lock; non-trivial = at least one such entry was checked in a case with a held application transaction"},
+		genLoopCase, checkC14Loop)
+}
+
+func TestC14LoopEnum(t *testing.T) {
+	points := loopYieldPoints[:nMainPoints]
+	vcore.RunEnum(t, vcore.Config{Property: "C14", Inflight: true,
+		Rule: "enumeration: the fixed scenario of TestC03Enum with the application's transaction held open at EVERY yield point x kind of change x {native, shadow} x {another commit precedes or not}; header oracle of TestC14Loop only; non-trivial = entries written by Lightning Stream were checked"},
+		func(yield func(enumLoop) bool) {
+			for _, native := range []bool{true, false} {
+				for _, p := range points {
+					for _, k := range []string{"insert", "overwrite", "delete", "newdbi", "multi"} {
+						for _, lf := range []bool{false, true} {
+							if !yield(enumLoop{Native: native, Point: p, Kind: k, LocalFirst: lf, Held: true}) {
+								return
+							}
+						}
+					}
+				}
+			}
+		},
+		func(e enumLoop, o *vcore.Obs) error {
+			return checkC14Loop(e.toCase(), o)
+		})
 }
